@@ -193,7 +193,7 @@ def check_theorems(pid):
             else:
                 ok = False
     res["ok"] = ok and res["discharged"] == res["obligations"] and res["obligations"] > 0
-    if res["ok"] and TIER[0] == "thorough":
+    if res["ok"] and TIER[0] == "thorough" and os.environ.get("VERIF_COQCHK", "1") != "0":
         # independent re-check of the compiled property file and everything it depends on
         # (cached per set of compiled files: the re-check of the heavy proof files takes more than half an hour)
         vos = sorted(glob.glob(os.path.join(COQ, "**", "*.vo"), recursive=True))
@@ -414,6 +414,9 @@ def run_check(pid, tier, seed):
         violations.append((path, " no-failing-input-found"))
 
     cases = sum(r["cases"] for r in runs)
+    nomodel = sorted({r["kind"] for r in runs if re.match(r"(userfold|userunf|exotic|big|longhist|encreuse|wafter|deep|alias|rec$|race)", r["kind"])})
+    if nomodel:
+        notes.append("kinds of this run that are direct oracles WITHOUT a Coq model (expectation written by hand on the Go side, nothing proved about them): " + ", ".join(nomodel))
     ev = dict(
         property_id=pid, tier=tier, seed=seed, level=("proof" if thm["obligations"] > 0 else "exploration"),
         coverage=dict(
